@@ -748,3 +748,26 @@ def implicit_timezone_on_copies(oi: int, right_first: bool) -> bool:
         if d.tzinfo is not None or L(T_TZ['tzd'].evaluate(XPathContext(item=1, variables=v))) != [] or str(d) != '2000-01-01T12:00:00':
             return False
     return True
+
+
+T_TZ.update(parse_all({'one_sided': '(xs:dateTime($a) - xs:dateTime($b), xs:dateTime($b) - xs:dateTime($a), xs:dateTime($b) + (xs:dateTime($a) - xs:dateTime($b)) eq xs:dateTime($a), '
+                                    'xs:dateTime($a) lt xs:dateTime($b), xs:dateTime($a) gt xs:dateTime($b))'}))
+OS_OFFS = ('+05:00', '-03:30', 'Z', '+14:00', '-00:30')
+_OS_MIN = {'+05:00': 300, '-03:30': -210, 'Z': 0, '+14:00': 840, '-00:30': -30}
+
+
+@ob(budget=200, bound='a = 2000-01-01T12:00:00 with a timezone from a table of 5, b = the same local time or one hour later WITHOUT timezone (chosen by the '
+                      'solver), no implicit timezone in the context: the timezone-less value is taken as UTC by subtraction exactly as by lt/gt, '
+                      'a - b = -(b - a), and b + (a - b) eq a',
+    funcs=[D + ':get_comparable_datetimes', D + ':AbstractDateTime._operation'])
+def difference_one_sided_timezone(oi: int, later: bool) -> bool:
+    """
+    pre: 0 <= oi <= 4
+    post: _
+    """
+    off = OS_OFFS[[k for k in range(5) if k == oi][0]]
+    a = '2000-01-01T12:00:00' + off
+    b = '2000-01-01T13:00:00' if later else '2000-01-01T12:00:00'
+    r = L(T_TZ['one_sided'].evaluate(XPathContext(item=1, variables={'a': a, 'b': b})))
+    want = -_OS_MIN[off] * 60 - (3600 if later else 0)       # a as instant minus b taken as UTC
+    return len(r) == 5 and r[0].seconds == want and r[1].seconds == -want and r[2] is True and r[3] is (want < 0) and r[4] is (want > 0)
